@@ -1,5 +1,6 @@
 SPECIFICATION Spec
 CONSTANTS
+  PipeNames = {"from_owned", "owned_try_into", "map"}
   MaxTraits = 1
   MaxMembers = 2
   AnyOrder = FALSE
